@@ -348,10 +348,17 @@ theorem skel_visit : (e e' : Expr) → Skel e e' →
       cases h with
       | compare _ hl hr =>
         rw [sqlVisit, sqlVisit]
-        refine OEq.bind (skel_visit l _ hl) (fun a a' ha => OEq.bind (skel_visit r _ hr) (fun b b' hb => OEq.pure ?_))
-        rw [cmpPieces_skel hr]
-        exact same_append (same_append (same_wrapOperand hl _ _ ha) (same_refl _))
-          (same_cons _ (same_wrapOperand hr _ _ hb))
+        refine OEq.bind (skel_visit l _ hl) (fun a a' ha => OEq.bind (skel_visit r _ hr) (fun b b' hb => ?_))
+        rw [isNullLit_skel hl]
+        split
+        · refine OEq.pure ?_
+          rw [cmpPieces_skel hl]
+          exact same_append (same_append (same_wrapOperand hr _ _ hb) (same_refl _))
+            (same_cons _ (same_wrapOperand hl _ _ ha))
+        · refine OEq.pure ?_
+          rw [cmpPieces_skel hr]
+          exact same_append (same_append (same_wrapOperand hl _ _ ha) (same_refl _))
+            (same_cons _ (same_wrapOperand hr _ _ hb))
   | .boolop op l r, _, h => by
       cases h with
       | boolop _ hl hr =>
